@@ -46,7 +46,7 @@ def plan(tier, seed):
         shards.append(dict(name=f"convert{i}", kind="convert", n=2 if q else 30, offset=i * 3))
     for i in range(2 if q else 8):
         shards.append(dict(name=f"refuse{i}", kind="refuse", n=3 if q else 6))
-        shards.append(dict(name=f"type{i}", kind="type", n=3 if q else 14, start=i))
+        shards.append(dict(name=f"type{i}", kind="type", n=4 if q else 14, start=i))
     ccs = gen.ccs()
     if q:
         ex = [[ccs[3]], [ccs[40]], [ccs[77]], ["TPM_ST"], ["TPMS_AUTH_COMMAND"]]  # TPM_ST has derived spec types
@@ -278,17 +278,22 @@ def type_shard(shard, rec, rng, tmp):
     g = gen.Gen(rng)
     prs = corpus.pairs()
     picks = []
+    P = layout.pinned()
     tpm2bs = [t for t in cases.non_union_types() if t.startswith("TPM2B") and t != "TPM2B_ENCRYPTED_PARAM"]
     others = [t for t in cases.non_union_types() if not t.startswith("TPM2B")]
     for i in range(shard["n"]):
-        k = (i + shard.get("start", 0)) % 5
+        k = (i + shard.get("start", 0)) % 6
         if k == 0:
             picks.append(rng.choice(prs)[1])  # captured command
         elif k == 1:
             picks.append(rng.choice(prs)[2])  # captured response
         elif k == 2:
-            picks.append(g.build(rng.choice(tpm2bs))[0])  # a size-prefixed value (listed under several TPM2B types)
+            # a bare fixed-size value (listed under every integer / enum / attribute type of that width that allows it)
+            pn = rng.choice([t for t in others if P["types"][t]["kind"] == "prim"])
+            picks.append(g.build(pn)[0])
         elif k == 3:
+            picks.append(g.build(rng.choice(tpm2bs))[0])  # a size-prefixed value (listed under several TPM2B types)
+        elif k == 4:
             (cb, _e, _i), (rb, _e2, _i2) = g.pair(rng.choice(gen.ccs()))
             picks.append(rng.choice((cb, rb)))
         else:
